@@ -1,5 +1,6 @@
 """C13 -- recommendations are consistent with the ratings shown."""
 import ast
+import copy
 import itertools
 
 from sa.core import AnalysisError, unparse, walk_no_nested, stmt_text, call_name, bind_args
@@ -78,6 +79,26 @@ def run(repo, rep, tier):
     for rule, msg in msgs.items():
         rep.check(rule, '%s (%d scenarios)' % (msg, nrows), not bad[rule], gr, 'recommendations differ from the documented rule -- %s [%d scenarios deviate]' % (bad[rule][0] if bad[rule] else '', len(bad[rule])), stmt='recommendation table: %s' % rule,
                   sample={'rule': rule, 'scenarios': nrows})
+    # the recommendations of a scan depend on THIS scan's table only: two calls in one process (same class-level state of Algorithms), the second on a table in
+    # which the measured notes differ (a failure appended to one algorithm, the warning removed from another), must each match the documented rule for its table
+    state_ = R.algorithms_class_state(repo)
+    offer_ = R.OFFERS['everything rated and nothing else']
+    db_b = copy.deepcopy(R.DB)
+    db_b['kex']['k-old-warn'] = [['2.0'], ['F-measured'], ['W1']]        # gains a failure in the second scan
+    db_b['enc']['e-warn'] = [['1.0'], [], []]                              # no longer rated in the second scan
+    first_ = R.run(repo, offer_, ('OpenSSH', '9.6'), True, class_state=state_)
+    second_ = R.run(repo, offer_, ('OpenSSH', '9.6'), True, db=db_b, class_state=state_)
+    rep.evals(2)
+    old_db = R.DB
+    try:
+        R.DB = db_b
+        want_second = R.expected(prods, offer_, ('OpenSSH', '9.6'), True)
+    finally:
+        R.DB = old_db
+    want_first = R.expected(prods, offer_, ('OpenSSH', '9.6'), True)
+    rep.check('faults', 'a second scan in the same process is recommended from its own ratings (class-level state of Algorithms carried over)', first_ == want_first and second_ == want_second, gr,
+              'recommendations of a later scan in the same process follow an earlier scan\'s ratings: with the table of the second target the pass returns %r, its own ratings imply %r' % (second_, want_second),
+              stmt='recommendations depend on this scan only')
     # severity levels and suppression
     badl = []
     for sup in (None, [], ['k-old-fail', 'e-warn', 'k-old-good', 'rsa-sha2-256']):
